@@ -330,22 +330,26 @@ mod native {
         }
     }
     // returns 0 = skipped, 1 = agreed on reject, 2 = agreed on accept
+    fn show(input: &[u8]) -> String {
+        if input.len() <= 80 { String::from_utf8_lossy(input).into_owned() }
+        else { format!("{}... ({} bytes)", String::from_utf8_lossy(&input[..40]), input.len()) }
+    }
     fn diff_one(input: &[u8]) -> u8 {
         let strict = o_values(input, 0, false, false).map(|x| x.0);
         let real = std::panic::catch_unwind(|| crate::BDecoder::from_array(input));
-        let real = match real { Ok(r) => r, Err(_) => panic!("decoder PANICKED on {:?}", String::from_utf8_lossy(input)) };
+        let real = match real { Ok(r) => r, Err(_) => panic!("decoder PANICKED on {:?}", show(input)) };
         match strict {
             Err(No::DontCare) => 0,
             Err(No::Reject) => {
                 if o_values(input, 0, false, true).is_ok() { return 0; }   // unterminated container: finding D12b
-                assert!(real.is_err(), "ill-formed input ACCEPTED: {:?} -> {:?}", String::from_utf8_lossy(input), real);
+                assert!(real.is_err(), "ill-formed input ACCEPTED: {:?} -> {:?}", show(input), real);
                 1
             }
             Ok(vs) => {
                 match real {
-                    Err(e) => panic!("well-formed input REJECTED: {:?} -> {:?}", String::from_utf8_lossy(input), e),
+                    Err(e) => panic!("well-formed input REJECTED: {:?} -> {:?}", show(input), e),
                     Ok(rs) => assert!(rs.len() == vs.len() && rs.iter().zip(vs.iter()).all(|(x, y)| same(x, y)),
-                        "well-formed input decoded to the WRONG VALUES: {:?} -> {:?}, grammar says {:?}", String::from_utf8_lossy(input), rs, vs),
+                        "well-formed input decoded to the WRONG VALUES: {:?} -> {:?}, grammar says {:?}", show(input), rs, vs),
                 }
                 2
             }
@@ -382,6 +386,18 @@ mod native {
         all_strings(b"d0:e", if deep { 13 } else { 11 }, &mut run);      // dictionaries with (repeated) empty keys: 5 592 405 (thorough 89 478 485)
         all_strings(b"l1:ei", if deep { 10 } else { 9 }, &mut run);      // nested lists / strings / ints: 2 441 406 (thorough 12 207 031)
         all_strings(b"i1e:0\n ", if deep { 8 } else { 7 }, &mut run);     // whitespace inside / after values (never bencode syntax): 960 800 (thorough 6 725 601)
+        all_strings(b"iIlLdDeE1:", 6, &mut run);                          // upper-case look-alikes of the type markers (never bencode syntax): 1 111 111
+        // well-formed byte strings around every length at which a size limit or a digit count changes (bare, in a list, as a
+        // dictionary value), and the same documents cut one byte short
+        for len in [0usize, 1, 9, 10, 11, 99, 100, 101, 255, 256, 257, 4095, 4096, 65534, 65535, 65536, 65537, 70000, 1 << 20] {
+            for wrap in [("", ""), ("l", "e"), ("d1:a", "e")] {
+                let mut doc = format!("{}{}:", wrap.0, len).into_bytes();
+                doc.extend(std::iter::repeat(b'x').take(len));
+                doc.extend_from_slice(wrap.1.as_bytes());
+                run(&doc);
+                if len > 0 && wrap.0.is_empty() { run(&doc[..doc.len() - 1]); }
+            }
+        }
         // integers at the edges of i64 / u64 (in and out of range, signed, with leading zeros, bare and inside a list)
         for digits in ["9223372036854775806", "9223372036854775807", "9223372036854775808", "9223372036854775809",
                        "18446744073709551614", "18446744073709551615", "18446744073709551616", "99999999999999999999",
